@@ -1161,3 +1161,48 @@ def spec_array(c, self, dtype=None, copy=None):
 
 
 CONTRACTS[-1].real_call = array_real
+
+
+# --------------------------------------------------------------------------- Dask container helpers (C09, C16)
+
+def inst_backend(classes=("Signal", "BasebandSignal", "FullStokesSignal")):
+    out = []
+    for cls in classes:
+        for be in ("numpy", "dask"):
+            def build(interp, ctx, nm, cls=cls, be=be):
+                return (mk_signal(interp, ctx, "z", cls, backend=be, has_meta=True, align="top", nm=nm),), {}
+            out.append(Instance(f"{cls},{be}", build))
+    return out
+
+
+def _container(c, self, backend):
+    g = c.view(self)
+    d = g.data
+    return construct(c, g.cls, SArr(d.shape, d.elem, d.dtype, backend), g.attrs())
+
+
+def spec_compute(c, self, **kwargs):
+    """only the container changes: same type, metadata, shape, dtype, values; NumPy-backed."""
+    return _container(c, self, "numpy")
+
+
+def spec_persist(c, self, **kwargs):
+    g = c.view(self)
+    return _container(c, self, g.data.backend)
+
+
+def spec_to_dask(c, self):
+    return _container(c, self, "dask")
+
+
+def spec_rechunk(c, self, chunks=None, **kwargs):
+    return _container(c, self, "dask")
+
+
+for _n, _sp in (("compute", spec_compute), ("persist", spec_persist), ("to_dask_array", spec_to_dask), ("rechunk", spec_rechunk)):
+    _cc2 = Contract(f"pulsarbat.core.Signal.{_n}", _sp, inst_backend(), props=("C09", "C16"))
+    _cc2.forcing_allowed = _n in ("compute", "persist")
+    if _n == "persist":
+        # persist of a NumPy-backed signal is np.asarray (no-op); of a Dask-backed one stays Dask
+        pass
+    CONTRACTS.append(_cc2)
